@@ -1,16 +1,54 @@
 //! Guard-page placement of input buffers and header arrays (direct mmap/mprotect FFI; no crate).
 use httparse::Header;
 use std::mem::MaybeUninit;
+#[cfg(not(miri))]
 use std::os::raw::{c_int, c_void};
 
+#[cfg(miri)]
+pub use self::miri_impl::{ByteArena, HeaderArena};
+
+/// Under Miri there is no mmap; buffers and header arrays are exact-size heap allocations, which Miri
+/// checks byte-exactly (out-of-bounds, uninitialised reads, aliasing) — stronger than guard pages.
+#[cfg(miri)]
+mod miri_impl {
+    use super::Place;
+    use httparse::Header;
+    use std::mem::MaybeUninit;
+    pub struct ByteArena { data: Box<[u8]> }
+    impl ByteArena {
+        pub fn new(data: &[u8], _place: Place, _align: usize) -> ByteArena { ByteArena { data: data.to_vec().into_boxed_slice() } }
+        pub fn bytes<'a>(&'a self) -> &'a [u8] { &self.data }
+    }
+    pub struct HeaderArena { slots: Box<[MaybeUninit<Header<'static>>]> }
+    impl HeaderArena {
+        pub fn new(cap: usize, _place: Place) -> HeaderArena {
+            HeaderArena { slots: (0..cap).map(|_| MaybeUninit::uninit()).collect::<Vec<_>>().into_boxed_slice() }
+        }
+        pub fn base(&self) -> *const Header<'static> { self.slots.as_ptr() as *const Header<'static> }
+        pub fn slots_mut<'s, 'b>(&'s mut self) -> &'s mut [MaybeUninit<Header<'b>>] {
+            // SAFETY: identical layout, lifetime only
+            unsafe { std::slice::from_raw_parts_mut(self.slots.as_mut_ptr() as *mut MaybeUninit<Header<'b>>, self.slots.len()) }
+        }
+        pub fn slots<'s, 'b>(&'s self) -> &'s [MaybeUninit<Header<'b>>] {
+            // SAFETY: identical layout, lifetime only
+            unsafe { std::slice::from_raw_parts(self.slots.as_ptr() as *const MaybeUninit<Header<'b>>, self.slots.len()) }
+        }
+    }
+}
+
+#[cfg(not(miri))]
 extern "C" {
     fn mmap(addr: *mut c_void, len: usize, prot: c_int, flags: c_int, fd: c_int, off: i64) -> *mut c_void;
     fn munmap(addr: *mut c_void, len: usize) -> c_int;
     fn mprotect(addr: *mut c_void, len: usize, prot: c_int) -> c_int;
 }
+#[cfg(not(miri))]
 const PROT_NONE: c_int = 0;
+#[cfg(not(miri))]
 const PROT_RW: c_int = 3;
+#[cfg(not(miri))]
 const MAP_PRIVATE_ANON: c_int = 0x22;
+#[cfg(not(miri))]
 const PAGE: usize = 4096;
 
 #[derive(Clone, Copy, PartialEq, Eq, Debug)]
@@ -23,11 +61,13 @@ pub enum Place {
     Align,
 }
 
+#[cfg(not(miri))]
 struct Region {
     base: *mut u8,
     len: usize,
 }
 
+#[cfg(not(miri))]
 impl Region {
     /// `pages` usable pages with one PROT_NONE page before and one after.
     fn new(pages: usize) -> Region {
@@ -53,6 +93,7 @@ impl Region {
     }
 }
 
+#[cfg(not(miri))]
 impl Drop for Region {
     fn drop(&mut self) {
         // SAFETY: unmapping what we mapped
@@ -62,12 +103,14 @@ impl Drop for Region {
     }
 }
 
+#[cfg(not(miri))]
 pub struct ByteArena {
     _r: Region,
     ptr: *const u8,
     len: usize,
 }
 
+#[cfg(not(miri))]
 impl ByteArena {
     pub fn new(data: &[u8], place: Place, align: usize) -> ByteArena {
         let pages = (data.len() + 64 + PAGE - 1) / PAGE + 1;
@@ -88,12 +131,14 @@ impl ByteArena {
     }
 }
 
+#[cfg(not(miri))]
 pub struct HeaderArena {
     _r: Region,
     ptr: *mut MaybeUninit<Header<'static>>,
     cap: usize,
 }
 
+#[cfg(not(miri))]
 impl HeaderArena {
     pub fn new(cap: usize, place: Place) -> HeaderArena {
         let sz = std::mem::size_of::<Header<'static>>();
